@@ -298,6 +298,25 @@ def rule_E5(ctx: Ctx) -> None:
     ok = src_ok and reset_ok and call_ok and ret_ok and not lp.orelse
     ctx.judge(f, ok if (call is not None and saved) else None, slot, exp,
               "configured filters are applied in another order, with other arguments, doubled, or the result is dropped", node=lp)
+    # every saved filter is applied: the loop has no exit other than `raise` (no break / continue / return inside it)
+    early = []
+
+    def _exits(node, depth=0):
+        for ch in ast.iter_child_nodes(node):
+            if isinstance(ch, (ast.FunctionDef, ast.Lambda, ast.AsyncFunctionDef)):
+                continue
+            if isinstance(ch, (ast.For, ast.While)):
+                for r_ in ast.walk(ch):
+                    if isinstance(r_, ast.Return):
+                        early.append(r_)
+                continue  # break / continue inside a nested loop belong to that loop
+            if isinstance(ch, (ast.Break, ast.Continue, ast.Return)):
+                early.append(ch)
+            _exits(ch, depth + 1)
+    _exits(lp)
+    ctx.judge(f, not early, {"early_exits_in_loop": [X.U(e) for e in early]},
+              "every filter of the saved list is applied: the loop is left only by `raise`",
+              "some configured filters are skipped (e.g. once the dataset is empty): they are not recorded, the result differs from applying the filters by hand", node=lp)
     chk = [c for c in X.calls(f.node) if dotted_of(c.func) == "_check_filter_equality"]
     ctx.judge(f, len(chk) == 1, {"check_calls": len(chk)}, "the re-recorded provenance is compared with the requested filter list")
 
@@ -307,7 +326,7 @@ RULES = [
     Rule("C04.E2", rule_E2, floor=3, doc="reseed dominates generation"),
     Rule("C04.E3", rule_E3, floor=2, doc="nothing consumes randomness between reseed and first draw"),
     Rule("C04.E4", rule_E4, floor=4, doc="ownership of the configuration"),
-    Rule("C04.E5", rule_E5, floor=2, doc="filters in order"),
+    Rule("C04.E5", rule_E5, floor=3, doc="filters in order, none skipped"),
     Rule("C04.E12", lambda ctx: __import__("sa.mypyx", fromlist=["x"]).cross_check(ctx, [HELPER, GENERATE, f"{DS}.GPTDataset.from_config"], "C04.E12"), floor=1,
          doc="thorough: call graph over-approximates mypy's type-resolved edges on the generation closure", tier="thorough"),
 ]
